@@ -737,7 +737,7 @@ def rule_pad_to_concat_rows(repo, rep):
     fn = go.func("convert_pad_to_concat")
     site = "ethosu/vela/tflite_graph_optimiser.py:convert_pad_to_concat"
     retype = [st for st in ast.walk(fn) if isinstance(st, ast.Assign) and str(norm(st)) == "op.type = Op.ConcatTFLite"]
-    borders = [st for st in ast.walk(fn) if isinstance(st, ast.Assign) and str(norm(st.targets[0])) == "shape" and str(norm(st.value)) in ("inp.shape.copy()", "list(inp.shape)", "op.ifm.shape.copy()")]
+    borders = [st for st in ast.walk(fn) if isinstance(st, ast.Assign) and isinstance(st.targets[0], ast.Name) and (str(norm(st.value)).endswith(".shape.copy()") or re.match(r"^list\(\w+(\.\w+)*\.shape\)$", str(norm(st.value))))]
     if len(retype) != 1 or not borders:
         raise AnalysisError("convert_pad_to_concat: re-typing / border shapes not found")
     # a test that looks at the rows other than `axis`: any early return (or enclosing condition) whose test reduces the paddings over a
